@@ -30,6 +30,18 @@ fn main() {
             let n: u64 = args[3].parse().unwrap();
             std::process::exit(search::showdown_search(seed, n));
         }
+        Some("iter") => {
+            // replay iter <c02|c04|c08> <flop> <full|scopes> <ranges...>
+            let case = search::IterCase::parse(&args[3..]);
+            match search::check_iter(&case, &args[2]) { Ok(s) => println!("OK {}", s), Err(s) => { println!("MISMATCH {}", s); std::process::exit(1); } }
+        }
+        Some("iter-search") => {
+            let seed: u64 = args[2].parse().unwrap();
+            let n: u64 = args[3].parse().unwrap();
+            let marker = args.get(4).cloned().unwrap_or_default();
+            let mode = args.get(5).cloned().unwrap_or("c02".to_string());
+            std::process::exit(search::iter_search(seed, n, &marker, &mode));
+        }
         _ => {
             eprintln!("usage: replay eval <7 cards> | showdown <board> <pairs> | showdown-search <seed> <n>");
             std::process::exit(2);
